@@ -285,6 +285,11 @@ def m_str_eq(ex, st, callee, args):
     return [(None, Sc("bool", z3.simplify(r)))]
 
 
+def m_char_from_u8(ex, st, callee, args):
+    b = scalar(ex, st, args[0])
+    return [(None, Sc("char", z3.ZeroExt(24, b.e)))]
+
+
 def m_unwrap_or_default_str(ex, st, callee, args):
     v = ex.deref(st, args[0]) if isinstance(args[0], Ref) else args[0]
     if isinstance(v, Adt) and v.ty == "Option":
@@ -308,6 +313,7 @@ def install(m):
         (r"^<Chars<'_> as Iterator>::nth$", m_chars_nth),
         (r"^<Chars<'_> as Iterator>::count$", m_chars_count),
         (r"^<char as ToString>::to_string$", m_char_to_string),
+        (r"^<char as From<u8>>::from$", m_char_from_u8),
         (r"^context::Ctx::<'_>::load_local$", m_load_local),
         (r"^<&?(str|String) as PartialEq(<&?(str|String)>)?>::(eq|ne)$", m_str_eq),
     ]
